@@ -16,6 +16,8 @@ const (
 	sigError     = 3
 	sigLookahead = 4
 	sigPartition = 5
+	sigEntry     = 6
+	sigFinal     = 7
 )
 
 func computeRuleClasses(t *Tables, g *Grammar) []int {
@@ -56,11 +58,25 @@ func computeRuleClasses(t *Tables, g *Grammar) []int {
 	return ruleClass
 }
 
-func partitionStatesByAction(t *Tables, ruleClass []int, numStates int) ([]int, *container.IntSliceSet) {
+func partitionStatesByAction(t *Tables, ruleClass []int, numStates, numInputs int) ([]int, *container.IntSliceSet) {
+	final := make(map[int]bool)
+	for _, s := range t.FinalStates {
+		final[s] = true
+	}
+
 	// Initial partitions based on reductions and actions
 	// Signature of a state:
 	//    Action[s], plus LALR entries substituting rule -> ruleClass
 	stateSignature := func(s int) []int {
+		if s < numInputs {
+			// Entry states are addressed by their input index and must keep their numbers.
+			return []int{sigEntry, s}
+		}
+		if final[s] {
+			// The parser stops as soon as it reaches a final state: never merge those with
+			// states in which parsing continues.
+			return []int{sigFinal}
+		}
 		act := t.Action[s]
 		if act >= 0 {
 			return []int{sigReduce, ruleClass[act]}
@@ -159,7 +175,7 @@ func refinePartitions(partition []int, partitions *container.IntSliceSet, t *Tab
 func minimize(t *Tables, g *Grammar) {
 	numStates := t.NumStates
 	ruleClass := computeRuleClasses(t, g)
-	partition, partitions := partitionStatesByAction(t, ruleClass, numStates)
+	partition, partitions := partitionStatesByAction(t, ruleClass, numStates, len(g.Inputs))
 	partition, partitions = refinePartitions(partition, partitions, t)
 
 	if partitions.Len() == numStates {
